@@ -1312,6 +1312,30 @@ theorem C07_log_prob_cache_shape (lm : LM) (V : Nat) (eos : Option Nat) (maxIter
   simp only [Option.map_some, Option.some.injEq] at ho
   exact C07_log_prob_shape lm V eos maxIters N cache va raises v s ho
 
+/-- `C07_log_prob_cache_shape` applied (all hypotheses together): batch shape `(2,)`, a sampled
+`(1, 2)` block of paths whose cached scores are the scores of its rows (`SamplesScored`), a hit on
+it, then one draw per batch element (sample shape `()`) scored twice - call 3 is answered from the
+entry call 2 wrote, and the theorem gives it the shape `(2,)` and the rows' scores. -/
+theorem C07_log_prob_cache_shape_nonvacuous (s : Shaped (Option Rat))
+    (h : (runDist false
+        (distCfg (fun n _ v => -((n + v : Nat) : Rat)) 2 (some 0) (some 2) (some 2) true none)
+        DistCache.empty
+        [.sample false ⟨[1, 2, 2], [[1, 0], [1, 1]]⟩ ⟨[1, 2], [some (-1), some (-4)]⟩,
+         .logProb ⟨[1, 2, 2], [[1, 0], [1, 1]]⟩, .logProb ⟨[2, 2], [[1, 0], [1, 1]]⟩,
+         .logProb ⟨[2, 2], [[1, 0], [1, 1]]⟩])[2]? = some (.ok s)) :
+    s.shape = [2] ∧ s.cells = [some (-1), some (-4)] := by
+  have hs : SamplesScored
+      (distCfg (fun n _ v => -((n + v : Nat) : Rat)) 2 (some 0) (some 2) (some 2) true none)
+      [.sample false ⟨[1, 2, 2], [[1, 0], [1, 1]]⟩ ⟨[1, 2], [some (-1), some (-4)]⟩,
+       .logProb ⟨[1, 2, 2], [[1, 0], [1, 1]]⟩, .logProb ⟨[2, 2], [[1, 0], [1, 1]]⟩,
+       .logProb ⟨[2, 2], [[1, 0], [1, 1]]⟩] := by
+    refine ⟨fun _ => ⟨by decide +kernel, rfl⟩, trivial⟩
+  have := C07_log_prob_cache_shape _ 2 (some 0) (some 2) (some 2) true none _ _ hs 2
+    ⟨[2, 2], [[1, 0], [1, 1]]⟩ s rfl h
+  refine ⟨this.1, ?_⟩
+  rw [this.2.1 (by decide)]
+  decide +kernel
+
 /-- `C07_log_prob_cache_shape` on a sequence with a batch shape `(2,)`: a `(1, 2)`-shaped block of
 paths (sample shape `(1,)`), scored twice (the second answer comes from the cache), then the same
 rows as a `(1, 1, 2, S)` tensor: every answer has the value's shape without the event dimension. -/
@@ -1370,6 +1394,20 @@ theorem C07_log_prob_cache_aliased_counterexample :
     (runCalls exAliasCfg exEditScores).map outcome = [(none, some 15), (none, some 15)] := by
   refine ⟨by decide, by decide, by decide, by decide, by decide, by decide, by decide, by decide,
     by decide⟩
+
+/-- `C07_log_prob_cache_calls` applied to the three scripts with in-place edits (the sample of
+`exEditSample` caches `15`, the score of what it drew): the copying object answers as the
+reference. -/
+theorem C07_log_prob_cache_calls_nonvacuous :
+    runCalls exAliasCfg exEditValue = refCalls exAliasCfg exEditValue ∧
+    runCalls exAliasCfg exEditSample = refCalls exAliasCfg exEditSample ∧
+    runCalls exAliasCfg exEditScores = refCalls exAliasCfg exEditScores ∧
+    (refCalls exAliasCfg exEditSample).map outcome = [(none, some 16)] :=
+  ⟨C07_log_prob_cache_calls _ _ (by simp [exEditValue, resolveCalls, SamplesScored, List.lookup]),
+   C07_log_prob_cache_calls _ _
+     (by simp [exEditSample, exAliasCfg, resolveCalls, SamplesScored, List.lookup]),
+   C07_log_prob_cache_calls _ _ (by simp [exEditScores, resolveCalls, SamplesScored, List.lookup]),
+   by decide⟩
 
 /-- **C07_log_prob_cache_aliased_partial**: what the aliasing object does establish - when the
 caller never edits a tensor in place (`NoInPlace`: every tensor number is bound once, no edit of
